@@ -27,6 +27,17 @@ macro_rules! no_crash {
             vcover!(tr.next_addr == 0xFB, "pre.near-the-end");
             tr.push_instruction(&inst, &None);
             vassert!(tr.bytes.len() == 1, "C06.P.push.returns-normally");
+            // what `finish` will do with the emitted items: a relative-offset closure is applied to the
+            // label's address, whatever that address is
+            let mut i = 0;
+            while i < tr.bytes[0].1.len() {
+                if let ByteOrLabel::LabelFn(_, f) = &tr.bytes[0].1[i] {
+                    let target: u8 = vany();
+                    let _ = (**f)(target);
+                    vassert!(true, "C06.P.finish.offset-closure-returns-normally");
+                }
+                i += 1;
+            }
             std::mem::forget(tr);
         }
     };
@@ -45,6 +56,8 @@ no_crash!(c06_rlc, Rlc(any_reg()));
 no_crash!(c06_push, Push(any_reg()));
 no_crash!(c06_jmp, Jmp(SRC_LABEL.to_string()));
 no_crash!(c06_jr, Jr(SRC_LABEL.to_string()));
+no_crash!(c06_jcs, Jcs(SRC_LABEL.to_string()));
+no_crash!(c06_jnc, Jnc(SRC_LABEL.to_string()));
 no_crash!(c06_call, Call(SRC_LABEL.to_string()));
 no_crash!(c06_stop, Stop);
 no_crash!(c06_ldsp_reg, Ldsp(Source::Register(any_reg())));
@@ -122,6 +135,6 @@ pub(crate) fn c06_x_finish_label_case() {
 
 crate::replay_table!(verif_replay_c06;
     c06_dec_reg, c06_dec_ind, c06_dec_abs, c06_dec_const, c06_dec_inc, c06_dec_dinc, c06_clr, c06_add, c06_lsl, c06_rlc, c06_push,
-    c06_jmp, c06_jr, c06_call, c06_stop, c06_ldsp_reg, c06_stacksize, c06_programsize, c06_org_forward, c06_byte,
+    c06_jmp, c06_jr, c06_jcs, c06_jnc, c06_call, c06_stop, c06_ldsp_reg, c06_stacksize, c06_programsize, c06_org_forward, c06_byte,
     c06_org_backward_known, c06_image_overflow_known,
 );
